@@ -79,10 +79,15 @@ LEVEL_TEXT = ("Lean 4 theorems (Props/C08.lean) about ANY two least-squares solu
               "(A, P), once per list; RegListOK of both lists derived from the calls); C08_net_datum applied over R to a "
               "correlated network with cholesky on one list and the envelope on the other (C08_net_datum_witness).")
 LEVEL_NOTE = ("Exact-arithmetic statements; IEEE rounding is outside. 'All distances and angles between adjusted points are "
-              "the same' has NO theorem: proved are x - x' in ker A (all levels) and that a HAND-WRITTEN 2D distance design "
-              "(Lemmas/LS/Datum2D.lean, not the regenerated rows; no directions, angles, 3D) annihilates translations and the "
-              "infinitesimal rotation (C08_datum_kernel_2d); the invariance of distances / angles itself is not stated, and to "
-              "printed precision after iteration it is checked by the network oracle (inter-point distances, height "
+              "the same' is proved to FIRST ORDER on the regenerated linearisation (Props/C08Invariants.lean, round 11): every "
+              "row of the 13 regenerated classes annihilates the datum generators its class is invariant under "
+              "(C08_rows_annihilate_datum_generators: tx, ty, tz, rot with 2000/pi cc on orientation unknowns, scale), "
+              "span{g} is in ker of the executed pass / project_equations output (C08_pe_datum_generators_in_kernel), and a "
+              "distance / angle between adjusted points has the same linearised value for two datum solutions "
+              "(C08_adjusted_distance/angle_datum_invariant) under the hypothesis ker A within span{g} (hker: no configuration "
+              "defect beyond the datum defect; assumed, no instance proved) or directly for x' - x in span{g}; second-order "
+              "terms and printed precision after iteration are checked by the network oracle (inter-point distances, angles, "
+              "height "
               "differences), not proved. In Model/MinX.lean the set of revised observations and the numeric half of "
               "singular_coords (1 - |cos| < 1e-12) are a parameter (World) the theorems quantify over; the driver runs the "
               "structural part of LocalRevision and the generator avoids histories in which the numeric test could fire "
@@ -107,6 +112,7 @@ ASSUMPTIONS = c01p.ASSUMPTIONS + ["network oracle: generated networks are well d
 TRUSTED = ["tools/lib/gen_ls.py exact rational kernel / 'resolves' decision / reference solution (the latter decides ls cases "
            "whose x lines miss the componentwise 1e-9 comparison on an ill-conditioned problem: tools/lib/exact_verdict.py)",
            "tools/lib/gen_net.py gkf writer and result reader",
+           "tools/gen/c05_linearization.py (C08's translate regenerates Gen/Linearization.lean, which the clause-6 theorems read)",
            "hand models: Model/MinX.lean (numbering / min_x_ bookkeeping; its Obs.refs is hand-written, proved equal to the "
            "touches of the regenerated linearisation in C05_minx_refs_are_generated_touches), Lemmas/LS/Datum2D.lean (2D "
            "distance rows of the clause-6 reading)",
